@@ -101,6 +101,8 @@ def task(spec, indent_kind, sep_len, column_kind, label):
         try:
             ok, d1, d2, t1, t2 = native(*args)
         except Exception as e:  # noqa
+            from pysym.harness import guard_repo_exception
+            guard_repo_exception(e)
             return {"input": list(args), "observed": f"raised {type(e).__name__}: {e}", "expected": "round trip"}
         if ok:
             return None
